@@ -45,5 +45,14 @@ def translate(repo):
         items.append(shape("compat.%s" % fn, func_shape(find_func(ctree, fn))))
     items.append(shape("compat.poll_classes", "\n".join(ast.unparse(n) for n in ctree.body if isinstance(n, ast.ClassDef) and "poll" in n.name.lower())))
     items.append(shape("retry_errnos", ast.unparse(find_assign(tree, "retry_errnos"))))
+    # a closed stream: every use of the descriptor (poll -> fileno, read, write) raises EOFError - what makes serve()/wait() on an ended
+    # connection fail at once instead of blocking (consumed by model/Lifecycle.v: wait_outcome)
+    cf = find_class(tree, "ClosedFile")
+    fns = {n.name: ast.unparse(n) for n in cf.body if isinstance(n, ast.FunctionDef)}
+    raises = fns.get("fileno") == "def fileno(self):\n    raise EOFError('stream has been closed')" and \
+        fns.get("__getattr__") == "def __getattr__(self, name):\n    if name.startswith('__'):\n        raise AttributeError('stream has been closed')\n    raise EOFError('stream has been closed')"
+    swaps = all(any(ast.unparse(x) == "self.%s = ClosedFile" % attr for x in ast.walk(find_func(find_class(tree, cn), "close")) if isinstance(x, ast.Assign))
+                for cn, attrs in (("SocketStream", ["sock"]), ("PipeStream", ["incoming", "outgoing"])) for attr in attrs)
+    items.append(typed("closed_stream_raises_eof", "bool", coq_bool(bool(raises and swaps))))
     items.append(shape("ClosedFile", func_shape(find_class(tree, "ClosedFile")) if False else ast.unparse(find_class(tree, "ClosedFile"))))
     return items
